@@ -25,7 +25,7 @@ ASSUMPTIONS = [
 
 @hyp.composite
 def cases(d):
-    prog = tree.gen_tree(d)
+    prog = tree.gen_tree(d, lists=True)
     types, stmts, ns = tree.flatten(prog)
     allf = [dict(f, name=k) for k, f in types.items()]
     inline = None
